@@ -156,7 +156,13 @@ pub mod iter {
         where
             C: Fn(usize, Self::Item) -> bool + Sync;
 
-        /// All items in index order, each computed on the pool.
+        /// Whether the items have a position rayon preserves (indexed sources and adaptors over
+        /// them); for bridged iterators rayon guarantees no order.
+        #[doc(hidden)]
+        const ORDERED: bool;
+
+        /// All items, each computed on the pool: in index order for ordered iterators, in
+        /// completion order otherwise.
         #[doc(hidden)]
         fn run_to_vec(self) -> Vec<Self::Item> {
             let out: StdMutex<Vec<(usize, Self::Item)>> = StdMutex::new(Vec::new());
@@ -165,7 +171,9 @@ pub mod iter {
                 true
             });
             let mut v = out.into_inner().unwrap();
-            v.sort_by_key(|(i, _)| *i);
+            if Self::ORDERED {
+                v.sort_by_key(|(i, _)| *i);
+            }
             v.into_iter().map(|(_, x)| x).collect()
         }
 
@@ -576,7 +584,9 @@ pub mod iter {
                 Some(e) => Err(e),
                 None => {
                     let mut v = oks.into_inner().unwrap();
-                    v.sort_by_key(|(i, _)| *i);
+                    if I::ORDERED {
+                        v.sort_by_key(|(i, _)| *i);
+                    }
                     Ok(C::from_par_iter(Ready(v.into_iter().map(|(_, x)| x).collect())))
                 }
             }
@@ -598,6 +608,7 @@ pub mod iter {
     pub struct Ready<T>(pub(crate) Vec<T>);
     impl<T: Send> ParallelIterator for Ready<T> {
         type Item = T;
+        const ORDERED: bool = true;
         fn drive<C>(self, consumer: C)
         where
             C: Fn(usize, T) -> bool + Sync,
@@ -629,6 +640,7 @@ pub mod iter {
         F: Fn(I::Item) -> R + Sync + Send,
     {
         type Item = R;
+        const ORDERED: bool = I::ORDERED;
         fn drive<C>(self, consumer: C)
         where
             C: Fn(usize, R) -> bool + Sync,
@@ -663,6 +675,7 @@ pub mod iter {
         F: Fn(&mut T, I::Item) -> R + Sync + Send,
     {
         type Item = R;
+        const ORDERED: bool = I::ORDERED;
         fn drive<C>(self, consumer: C)
         where
             C: Fn(usize, R) -> bool + Sync,
@@ -686,6 +699,7 @@ pub mod iter {
         F: Fn(&I::Item) -> bool + Sync + Send,
     {
         type Item = I::Item;
+        const ORDERED: bool = I::ORDERED;
         fn drive<C>(self, consumer: C)
         where
             C: Fn(usize, I::Item) -> bool + Sync,
@@ -707,6 +721,7 @@ pub mod iter {
         F: Fn(I::Item) -> Option<R> + Sync + Send,
     {
         type Item = R;
+        const ORDERED: bool = I::ORDERED;
         fn drive<C>(self, consumer: C)
         where
             C: Fn(usize, R) -> bool + Sync,
@@ -725,6 +740,7 @@ pub mod iter {
 
     impl<I: IndexedParallelIterator> ParallelIterator for Enumerate<I> {
         type Item = (usize, I::Item);
+        const ORDERED: bool = true;
         fn drive<C>(self, consumer: C)
         where
             C: Fn(usize, (usize, I::Item)) -> bool + Sync,
@@ -750,6 +766,7 @@ pub mod iter {
         B: IndexedParallelIterator,
     {
         type Item = (A::Item, B::Item);
+        const ORDERED: bool = true;
         fn drive<C>(self, consumer: C)
         where
             C: Fn(usize, (A::Item, B::Item)) -> bool + Sync,
@@ -799,6 +816,7 @@ pub mod iter {
 
     impl<T: Send> ParallelIterator for VecIter<T> {
         type Item = T;
+        const ORDERED: bool = true;
         fn drive<C>(self, consumer: C)
         where
             C: Fn(usize, T) -> bool + Sync,
@@ -971,6 +989,7 @@ pub mod iter {
         I::Item: Send,
     {
         type Item = I::Item;
+        const ORDERED: bool = false;
         fn drive<C>(self, consumer: C)
         where
             C: Fn(usize, I::Item) -> bool + Sync,
@@ -978,15 +997,6 @@ pub mod iter {
             run_pool(self, consumer)
         }
 
-        /// rayon gives no order guarantee for bridged iterators: completion order.
-        fn run_to_vec(self) -> Vec<I::Item> {
-            let out: StdMutex<Vec<I::Item>> = StdMutex::new(Vec::new());
-            self.drive(|_, x| {
-                out.lock().unwrap().push(x);
-                true
-            });
-            out.into_inner().unwrap()
-        }
     }
 
     pub trait ParallelBridge: Sized {
